@@ -622,7 +622,7 @@ UINT32 NvObjectToBuffer(OBJECT* object, BYTE* buffer, UINT32 size)
 // Convert a buffer to an OBJECT; the size of the buffer must have
 // exactly the size consumed by ANY_OBJECT_Unmarshal, if the OBJECT
 // can be unmarshaled from the buffer.
-static void NvObjectFromBuffer(OBJECT* object, BYTE* buf, UINT32 buf_size)
+static TPM_RC NvObjectFromBuffer(OBJECT* object, BYTE* buf, UINT32 buf_size)
 {
     TPM_RC rc;
     BYTE*  buffer = buf;
@@ -634,12 +634,51 @@ static void NvObjectFromBuffer(OBJECT* object, BYTE* buf, UINT32 buf_size)
      */
     rc = ANY_OBJECT_Unmarshal(object, &buffer, &size, false);
     if (!rc) {
-        pAssert(size == 0);
+        if (size != 0)
+            rc = TPM_RC_SIZE;
     } else {
         /* It could not be unmarshalled, it must be a plain RSA3072_OBJECT */
         rc = RSA3072_OBJECT_Buffer_To_OBJECT(object, buf, buf_size);
-        pAssert(rc == TPM_RC_SUCCESS);
     }
+    return rc;
+}
+
+/* Read the flat persistent object at 'ref' into a buffer and convert it */
+static TPM_RC NvReadObjectChecked(NV_REF ref, OBJECT* object)
+{
+    UINT32 entrysize;
+    BYTE   buffer[MAX_MARSHALLED_OBJECT_SIZE];
+
+    /* read size of object in NVRAM; this includes the NV_ENTRY_HEADER */
+    NvRead(&entrysize, ref - sizeof(UINT32), sizeof(entrysize));
+    if (entrysize < sizeof(NV_ENTRY_HEADER) ||
+        entrysize - sizeof(NV_ENTRY_HEADER) > sizeof(buffer))
+        return TPM_RC_SIZE;
+    entrysize -= sizeof(NV_ENTRY_HEADER);
+
+    /* read the flat object into a buffer */
+    NvRead(buffer, ref + sizeof(TPM_HANDLE), entrysize);
+
+    return NvObjectFromBuffer(object, buffer, entrysize);
+}
+
+/* Check that every persistent object in NV memory can be read under the
+ * active profile. State that was unmarshalled with all algorithms allowed
+ * may hold an object that the profile of the same state does not permit;
+ * NvReadObject() would later assert on it.
+ */
+TPM_RC NvCheckEvictObjects(void)
+{
+    NV_REF     iter = NV_REF_INIT;
+    NV_REF     currentAddr;
+    TPM_HANDLE handle;
+    OBJECT     object;
+    TPM_RC     rc = TPM_RC_SUCCESS;
+
+    while(rc == TPM_RC_SUCCESS
+          && (currentAddr = NvNextEvict(&handle, &iter)) != 0)
+        rc = NvReadObjectChecked(currentAddr, &object);
+    return rc;
 }							// libtpms added end
 
 //*** NvReadObject()
@@ -653,18 +692,9 @@ void NvReadObject(NV_REF  ref,    // IN: points to NV where index is located
 #if 0							// libtpms changed begin
     NvRead(object, (ref + sizeof(TPM_HANDLE)), sizeof(OBJECT));
 #endif
-    UINT32 entrysize;
-    BYTE   buffer[MAX_MARSHALLED_OBJECT_SIZE];
+    TPM_RC rc = NvReadObjectChecked(ref, object);
 
-    /* read size of object in NVRAM; this includes the NV_ENTRY_HEADER */
-    NvRead(&entrysize, ref - sizeof(UINT32), sizeof(entrysize));
-    entrysize -= sizeof(NV_ENTRY_HEADER);
-
-    /* read the flat object into a buffer */
-    pAssert(entrysize <= sizeof(buffer));
-    NvRead(buffer, ref + sizeof(TPM_HANDLE), entrysize);
-
-    NvObjectFromBuffer(object, buffer, entrysize);
+    pAssert(rc == TPM_RC_SUCCESS);
 
     return;						// libtpms changed end
 }
